@@ -130,6 +130,8 @@ def ty_of(node, glob):
 # ---- building concrete arguments -------------------------------------------------------------------------
 def build_value(ty, val, scenario, events):
     n = ty.name
+    if val is None and n in ('Int', 'Nat', 'Byte', 'Bool', 'Bytes', 'ByteArray', 'ListInt', 'ListByte', 'SeqInt', 'Str', 'Latin1', 'ListBytes', 'SeqBytes'):
+        val = {'Int': 0, 'Nat': 0, 'Byte': 0, 'Bool': False}.get(n, [])        # a field the scenario does not mention
     if n in ('Int', 'Nat', 'Byte'):
         return int(val)
     if n == 'Bool':
